@@ -80,7 +80,7 @@ fn build_doc(schema: &str, paths: &[String], free: &Value) -> Value {
     root
 }
 
-fn mutate(schema: &str, doc: &mut Value, m: &Value) {
+fn mutate(schema: &str, doc: &mut Value, m: &Value, variant: usize) {
     let p = m["p"].as_str().unwrap();
     let segs: Vec<&str> = if p.is_empty() { vec![] } else { p.split('.').collect() };
     match m["k"].as_str().unwrap() {
@@ -99,6 +99,19 @@ fn mutate(schema: &str, doc: &mut Value, m: &Value) {
             let cur = t.get(*last).unwrap().clone();
             let new = if cur.get("s").is_some() { json!({"i": 42}) } else if cur.get("b").is_some() { json!({"s": "true"}) } else { json!({"s": "a single string instead of an array"}) };
             t.insert(last.to_string(), new);
+        }
+        "retype-table" => {
+            // the table (or every element of the array of tables) becomes an array: of the values it
+            // held, or empty
+            let (last, parents) = segs.split_last().unwrap();
+            let name = last.strip_suffix("[]").unwrap_or(last);
+            let t = table_at(doc, parents);
+            let cur = t.get(name).unwrap().clone();
+            let as_array = |tab: &Value| -> Value {
+                if variant % 2 == 0 { json!({"a": tab["t"].as_object().unwrap().values().cloned().collect::<Vec<_>>()}) } else { json!({"a": []}) }
+            };
+            let new = if cur.get("t").is_some() { as_array(&cur) } else { json!({"a": cur["a"].as_array().unwrap().iter().map(as_array).collect::<Vec<_>>()}) };
+            t.insert(name.to_string(), new);
         }
         "add" => {
             let t = doc["t"].as_object_mut().unwrap();
@@ -233,7 +246,7 @@ fn parse_and_project(schema: &str, text: &str) -> Result<BTreeMap<String, Value>
     Ok(m)
 }
 
-fn run(v: &Value, idx: usize) -> Vec<String> {
+fn run(v: &Value, idx: usize, variant: usize) -> Vec<String> {
     let schema = v["schema"].as_str().unwrap();
     let paths: Vec<String> = serde_json::from_value(v["doc"].clone()).unwrap();
     let mut r = fastrand::Rng::with_seed(seed().wrapping_add(idx as u64));
@@ -241,7 +254,7 @@ fn run(v: &Value, idx: usize) -> Vec<String> {
     let mut free = gen_table(&mut r, 2);
     free["t"].as_object_mut().unwrap().insert("always".into(), json!({"t": {"nested": {"i": 1}}}));
     let mut doc = build_doc(schema, &paths, &free);
-    mutate(schema, &mut doc, &v["mut"]);
+    mutate(schema, &mut doc, &v["mut"], variant);
     let mut text = String::new();
     emit_table(&[], &doc, r.u64(..), &mut text);
     let verdict = v["verdict"].as_str().unwrap();
@@ -281,7 +294,7 @@ fn main() {
     let raw = read_tlc_tagged(&PathBuf::from(&args[1]), "SD");
     let reps: usize = std::env::var("VERIF_VARIATIONS").ok().and_then(|s| s.parse().ok()).unwrap_or(2);
     let jobs: Vec<(usize, usize)> = (0..raw.len()).flat_map(|i| (0..reps).map(move |k| (i, k))).collect();
-    let results = par_map(&jobs, threads(), |_, (i, k)| std::panic::catch_unwind(|| run(&raw[*i], i * 31 + k * 7919)).unwrap_or_else(|e| vec![format!("PANIC in harness or library: {:?}", e.downcast_ref::<String>())]));
+    let results = par_map(&jobs, threads(), |_, (i, k)| std::panic::catch_unwind(|| run(&raw[*i], i * 31 + k * 7919, *k)).unwrap_or_else(|e| vec![format!("PANIC in harness or library: {:?}", e.downcast_ref::<String>())]));
     let mut s = Summary::default();
     s.evaluations = jobs.len();
     s.distinct_nontrivial = raw.iter().filter(|v| v["mut"]["k"] != "none").count();
@@ -290,7 +303,12 @@ fn main() {
     for ((i, _), probs) in jobs.iter().zip(results) {
         for p in probs {
             let v = &raw[*i];
-            s.mismatches.push(Mismatch { signature: format!("{} {} {}: {}", v["schema"].as_str().unwrap(), v["mut"]["k"].as_str().unwrap(), v["mut"]["p"].as_str().unwrap(), p.split(':').nth(1).unwrap_or("").split('(').next().unwrap_or("").trim().chars().take(60).collect::<String>()), detail: p, case: v.clone() });
+            let signature = if v["mut"]["k"] == "retype-table" && p.contains("must make parsing fail") {
+                format!("{}: an array is accepted where the table {} must be", v["schema"].as_str().unwrap(), v["mut"]["p"].as_str().unwrap())
+            } else {
+                format!("{} {} {}: {}", v["schema"].as_str().unwrap(), v["mut"]["k"].as_str().unwrap(), v["mut"]["p"].as_str().unwrap(), p.split(':').nth(1).unwrap_or("").split('(').next().unwrap_or("").trim().chars().take(60).collect::<String>())
+            };
+            s.mismatches.push(Mismatch { signature, detail: p, case: v.clone() });
         }
     }
     s.extra.insert("verdicts".into(), json!(verdicts));
